@@ -60,7 +60,11 @@ void *rs_malloc(size_t req_size)
 	self->full_ckpt_size += 1 << req_blks_exp;
 
 	array_count_t i = array_count(self->buddies);
+#ifdef ROOT_SIM_CORE_VERIF
+	while(i--) VERIF_LOOP(rs_malloc_try) {
+#else
 	while(i--) {
+#endif
 		void *ret = buddy_malloc(array_get_at(self->buddies, i), req_blks_exp);
 		if(likely(ret != NULL))
 			return ret;
@@ -70,6 +74,7 @@ void *rs_malloc(size_t req_size)
 	buddy_init(new_buddy);
 
 	for(i = 0; i < array_count(self->buddies); ++i)
+	VERIF_LOOP(rs_malloc_pos)
 		if(array_get_at(self->buddies, i) > new_buddy)
 			break;
 
@@ -92,7 +97,11 @@ void *rs_calloc(size_t nmemb, size_t size)
 static inline struct buddy_state *buddy_find_by_address(struct mm_state *self, const void *ptr)
 {
 	array_count_t l = 0, h = array_count(self->buddies) - 1;
+#ifdef ROOT_SIM_CORE_VERIF
+	while(1) VERIF_LOOP(find_by_address) {
+#else
 	while(1) {
+#endif
 		array_count_t m = (l + h) / 2;
 		struct buddy_state *b = array_get_at(self->buddies, m);
 		if(ptr < (void *)b)
@@ -168,6 +177,7 @@ void model_allocator_checkpoint_take(struct mm_state *self, array_count_t ref_i)
 	struct buddy_checkpoint *buddy_ckp = (struct buddy_checkpoint *)ckp->chkps;
 	array_count_t i = array_count(self->buddies);
 	while(i--)
+	VERIF_LOOP(ckpt_take_arenas)
 		buddy_ckp = checkpoint_full_take(array_get_at(self->buddies, i), buddy_ckp);
 	buddy_ckp->orig = NULL;
 }
@@ -182,6 +192,7 @@ array_count_t model_allocator_checkpoint_restore(struct mm_state *self, array_co
 {
 	array_count_t i = array_count(self->logs) - 1;
 	while(array_get_at(self->logs, i).ref_i > ref_i)
+	VERIF_LOOP(restore_scan)
 		i--;
 
 	struct mm_checkpoint *ckp = array_get_at(self->logs, i).c;
@@ -189,7 +200,11 @@ array_count_t model_allocator_checkpoint_restore(struct mm_state *self, array_co
 	const struct buddy_checkpoint *buddy_ckp = (struct buddy_checkpoint *)ckp->chkps;
 
 	array_count_t k = array_count(self->buddies);
+#ifdef ROOT_SIM_CORE_VERIF
+	while(k--) VERIF_LOOP(restore_arenas) {
+#else
 	while(k--) {
+#endif
 		struct buddy_state *b = array_get_at(self->buddies, k);
 		const struct buddy_checkpoint *c = checkpoint_full_restore(array_get_at(self->buddies, k), buddy_ckp);
 		if(unlikely(c == NULL)) {
@@ -201,6 +216,7 @@ array_count_t model_allocator_checkpoint_restore(struct mm_state *self, array_co
 	}
 
 	for(array_count_t j = array_count(self->logs) - 1; j > i; --j)
+	VERIF_LOOP(restore_free)
 		mm_free(array_get_at(self->logs, j).c);
 
 	array_count(self->logs) = i + 1;
@@ -211,7 +227,11 @@ array_count_t model_allocator_fossil_lp_collect(struct mm_state *self, array_cou
 {
 	array_count_t log_i = array_count(self->logs) - 1;
 	array_count_t ref_i = array_get_at(self->logs, log_i).ref_i;
+#ifdef ROOT_SIM_CORE_VERIF
+	while(ref_i > tgt_ref_i) VERIF_LOOP(fossil_scan) {
+#else
 	while(ref_i > tgt_ref_i) {
+#endif
 		--log_i;
 		ref_i = array_get_at(self->logs, log_i).ref_i;
 	}
@@ -222,12 +242,17 @@ array_count_t model_allocator_fossil_lp_collect(struct mm_state *self, array_cou
 	}
 
 	array_count_t j = array_count(self->logs);
+#ifdef ROOT_SIM_CORE_VERIF
+	while(j > log_i) VERIF_LOOP(fossil_rebase) {
+#else
 	while(j > log_i) {
+#endif
 		--j;
 		array_get_at(self->logs, j).ref_i -= ref_i;
 	}
 
 	while(j--)
+	VERIF_LOOP(fossil_free)
 		mm_free(array_get_at(self->logs, j).c);
 
 	array_truncate_first(self->logs, log_i);
